@@ -109,7 +109,7 @@ Proof.
     now rewrite Forall_map in Hs.
 Qed.
 
-(* admission of a base-typed child under a parent whose datatype is None or the same type *)
+(* acceptance of a base-typed child under a parent whose datatype is None or the same type *)
 Lemma vcc_base_child pn pdt pst d kdt :
   base (Some d) = true -> (pdt = None \/ pdt = Some d) -> (kdt = None \/ kdt = Some d) ->
   valid_child_complex t TOLERANT pn pdt pst (Some d) kdt = Ok true.
